@@ -96,6 +96,13 @@ def _(headers: List[Opt[str]], rows: List[List[XCell]], cell_func: Fn(XCell, int
     locals(result_rows=List[Dict[str, CV]], row_dict=Dict[str, CV])
     n = len(rows)
     ensures(len(result) <= n)
+    # header names are distinct (get_excel_column_headers refuses duplicates)
+    requires(forall2(len(headers), lambda a, b: headers[a] is None or headers[a] != headers[b]))
+    # C12: every non-empty cell under a named header is read by the reader's own cell function of *that* cell —
+    # never a value computed for another cell
+    ensures(forall(0, len(result), lambda k: forall(0, len(headers), lambda c: implies(
+        headers[c] is not None and c < len(rows[k]) and not IsEmpty(rows[k][c].value),
+        some(headers[c]) in result[k] and result[k][some(headers[c])] == cell_func(rows[k][c], k, some(headers[c]))))))
     # a kept row is the empty dict exactly when the sheet row is empty (row numbering preserved)
     ensures(forall(0, len(result), lambda k: (len(result[k]) == 0) == RowEmptyPrefix(headers, rows[k], len(headers))))
     # C12: runs of up to 60 empty rows never truncate; only trailing empty rows are trimmed
@@ -108,9 +115,16 @@ def _(headers: List[Opt[str]], rows: List[List[XCell]], cell_func: Fn(XCell, int
         invariant(adjacent_empty_rows == RunRows(headers, rows, r))
         invariant(len(result_rows) == r)
         invariant(forall(0, r, lambda k: (len(result_rows[k]) == 0) == RowEmptyPrefix(headers, rows[k], len(headers))))
+        invariant(forall(0, r, lambda k: forall(0, len(headers), lambda c: implies(
+            headers[c] is not None and c < len(rows[k]) and not IsEmpty(rows[k][c].value),
+            some(headers[c]) in result_rows[k] and result_rows[k][some(headers[c])] == cell_func(rows[k][c], k, some(headers[c]))))))
         hint(RunRows(headers, rows, r + 1) >= 0)
 
     @loop(1, index="c")
     def _():
         invariant((len(row_dict) == 0) == RowEmptyPrefix(headers, row, c))
+        invariant(forall(0, c, lambda d: implies(
+            headers[d] is not None and d < len(row) and not IsEmpty(row[d].value),
+            some(headers[d]) in row_dict and row_dict[some(headers[d])] == cell_func(row[d], row_n, some(headers[d])))))
         hint(RowEmptyPrefix(headers, row, c + 1) or True)
+        hint(forall(0, c, lambda d: headers[d] is None or headers[d] != headers[c]))
